@@ -1,19 +1,65 @@
 N = {"quick": 400, "thorough": 20000}
 EXHAUSTIVE = {"quick": False, "thorough": True}
-RULE = ("per case a pool of 1-8/10 distinct timestamped messages (balances incl. full account snapshots of 1-3 items, public trades, L1 books, open-order reports; "
+RULE = ("per case a pool of 1-8/10 distinct timestamped messages (balances incl. full account snapshots of 1-3 items, public trades, L1 books, open-order reports, "
+        "TERMINAL order reports (cancelled / fully filled / expired / failed), cancel requests, and full account snapshots that mix balances with open and terminal order reports; "
         "timestamps from 1..2/3/6 so ties are frequent) is delivered as a random permutation WITH repetition (length pool..2*pool+2) through "
         "EngineState::update_from_account / update_from_market; every register is observed after every delivery. 10% of L1 messages carry a payload time "
         "different from the event time (model vs code only; the spec is silent). Thorough: additionally every delivery sequence of length <= 5 over 6 messages "
-        "(3 timestamps x 2 values) for each of the four register kinds (4 x 9330 sequences). Distinct by SHA-1 of op lines; non-trivial when an observed register changes at least once")
+        "(3 timestamps x 2 values) for each of the four register kinds (3 x 9330 sequences; the order kind has 8 messages - the 6 open reports, a cancel request and a "
+        "terminal report -, 37448 sequences). Distinct by SHA-1 of op lines; non-trivial when an observed register changes at least once")
 ASSUMPTIONS = [
     "L1 events carry last_update_time = time_exchange (the guard compares the event time but stores the payload's own time); otherwise modelled but outside the spec",
     "trade prices are finite (Decimal::from_f64 succeeds); exchange times are after the Unix epoch (the default OrderBookL1 carries the epoch timestamp)",
-    "open-order reports in this check always have something left to fill (filled in {0, q/2}); the interplay with requests/cancels/terminal reports is C01",
+    "open-order reports in this check always have something left to fill (filled in {0, q/2}); terminal order reports (cancelled / fully filled / expired / failed) and cancel requests ARE delivered, "
+    "singly and inside full account snapshots; open requests and cancel responses are C01",
+    "open-order details, the property LITERALLY (spec driver, specOrdLine): the details held for an order carry the greatest exchange timestamp delivered so far for that order among its open reports "
+    "(with a value delivered with that timestamp), or the order is not held - 'not held' being admitted only once a terminal report for the order was delivered. The code violates this on histories "
+    "open report t=5; terminal report; stale open report t=2: the finished order is tracked again with the OLDER details ((Entry::Vacant, Some(update)) => insert, order/mod.rs: no memory of finished "
+    "client order ids). Signature clause=ord_resurrected; Lean: C09.order_details_roll_back_witness, C01.resurrection_witness; the positive theorems (C09.order_details_episode_register, "
+    "order_details_carry_max_within_episode) hold per tracking episode",
     "the property constrains the held TIME (greatest delivered) and that the held VALUE was delivered with that time; which of several equal-time values is kept (balance/orders: last, trade/L1: first) is modelled and corresponded but not demanded by the spec",
 ]
 SOURCE_FILES = ["barter/src/engine/state/asset/mod.rs", "barter/src/engine/state/instrument/data.rs", "barter/src/engine/state/order/mod.rs", "barter/src/engine/state/mod.rs",
                 "barter-execution/src/balance.rs", "barter-integration/src/snapshot.rs", "barter/src/statistic/summary/asset.rs", "barter-data/src/books/mod.rs",
                 "barter-data/src/subscription/book.rs", "barter-data/src/subscription/trade.rs", "barter-data/src/event.rs"]
+
+
+def signature(ops, k, key, impl_line, spec_line):
+    """open-order keys `ord<i>_<c>`: a failure in which the implementation HOLDS details for an order although a
+    terminal report for that (instrument, client order id) was delivered earlier in the case (a finished order
+    tracked again by a stale open report, with details older than the greatest delivered) is `clause=ord_resurrected`;
+    every other failure of an order key is `clause=ord_details`; other keys keep the default `clause=<key>`."""
+    import re
+    m = re.match(r"ord(\d+)_(\d+)$", key)
+    if not m:
+        return None
+    i, c = m.group(1), m.group(2)
+    finished = False
+    for op in ops[: k + 1]:
+        t = op.split()
+        if not t:
+            continue
+        if t[0] == "ordx" and len(t) >= 3 and t[1] == i and t[2] == c:
+            finished = True
+        elif t[0] == "acct":
+            j = 1
+            while j < len(t):
+                if t[j] == "B":
+                    j += 5
+                elif t[j] == "O":
+                    j += 6
+                elif t[j] == "X":
+                    if t[j + 1 : j + 3] == [i, c]:
+                        finished = True
+                    j += 5
+                else:
+                    break
+    held = impl_line.split()[1:] not in ([], ["none"]) and impl_line != "<missing>" and impl_line != "panic"
+    if finished and held:
+        return "clause=ord_resurrected"
+    return "clause=ord_details"
+
+
 PREBUILD = [["python3", "tools/rust2lean_sm.py", "--require", "drawdown,pnl_returns,registers"]]
 CLAIM = True
 TECHNIQUE = "Lean 4: generic guarded-register lemma (fold of guarded updates holds a delivered message of maximal timestamp) by induction over delivery lists, permutation invariance via List.Perm, instantiated for balances / last trade / L1 / open orders (through the C01 refinement); correspondence through EngineState entry points"
